@@ -693,7 +693,7 @@ class C14(Prop):
         "every_history_ends_cleanly", "cmdline_ends_cleanly", "spoof_ends_cleanly", "environment_ends_cleanly", "configfile_ends_cleanly",
         "setting_succeeds_iff", "integer_argument_syntax", "rejected_setting_changes_nothing", "unknown_long_option", "ambiguous_long_option", "argument_to_flag",
         "missing_argument_long", "unknown_short_option", "verifyConfig_ok_iff_consistent",
-        "int_range_two_sided", "int_range_lower", "int_range_upper", "range_string_two_sided", "char_range_two_sided", "real_range_two_sided", "real_range_lower", "real_range_upper",
+        "int_range_two_sided", "int_range_lower", "int_range_upper", "range_string_two_sided", "char_range_two_sided", "real_range_two_sided", "real_range_two_sided_literal", "plain_decimal_is_real", "real_range_lower", "real_range_upper",
         "isUsed_iff", "isDefault_of_default_setter", "not_default_has_setter", "demo_wf")]
     claimed = True
     diverge_is_violation = True    # every op is a deterministic documented function of (table, sources so far)
@@ -707,7 +707,7 @@ class C14(Prop):
                   "IsUsed = not IsDefault and IsOn. The hand model is tied to the working tree by an exact differential run (12000 random tables x sources per quick run); a divergence or monitor failure is a concrete failing input.")
     level_note = ("Trusted: Lean kernel + propext/Classical.choice/Quot.sound; fidelity of the hand model (incl. its strtol/strtod/strtok/fgets models) is checked, not proved, by the differential run; "
                   "'+/- prefixed booleans' clause is vacuous in this version (a '+' word is an argument: theorem plus_word_is_argument); well-formed tables only; reals restricted to <= 6 significant digits; "
-                  "integer, character and real range strings of the documented forms are proved to mean the intended bounds (reals: order of the denoted rationals; that atof reads exactly the lower-bound literal at the start of a two-sided real range string is checked by examples and the differential run only).")
+                  "integer, character and real range strings of the documented forms are proved to mean the intended bounds (reals: order of the denoted rationals; lower bounds written as plain decimal literals are proved to be read exactly; exponent spellings only by examples and the differential run).")
     trusted_base = ["hand model of esl_getopts.c (+ esl_str_IsInteger/IsReal, esl_strtok from easel.c) tied by exact differential run (h_getopts.c, ASan+UBSan build of the working tree)",
                     "Lean compiler/runtime for the executable driver", "gcc, glibc strtol/strtod/getenv/fgets"]
     assumptions = [
